@@ -182,7 +182,9 @@ DEVIATIONS = ['point-missing', 'point-extra', 'point-renamed', 'point-dup', 'poi
               'subs-none', 'sub-extra', 'sub-missing', 'empty', 'permuted',
               # the channel count is wrong AND the frame carries at least one sub-frame, whatever the rates announce (a rate
               # ratio below 1 announces none: the channel guard must still see ANALOG:USED)
-              'chan-extra-1sub', 'chan-missing-1sub']
+              'chan-extra-1sub', 'chan-missing-1sub',
+              # a declared point is missing but a point whose name ENDS with that name is there (Subject:LASI for LASI): not that point
+              'point-renamed-prefix', 'point-renamed-suffix']
 
 def deviate(rng, sh, dev):
     """a frame literal that deviates from the declared shape in exactly one way"""
@@ -200,6 +202,8 @@ def deviate(rng, sh, dev):
     elif dev == 'sub-missing' and nsub > 0: nsub -= 1
     elif dev == 'empty': pts = []; chans = []; nsub = 0
     elif dev == 'permuted' and len(pts) >= 2: pts = pts[1:] + pts[:1]
+    elif dev == 'point-renamed-prefix' and pts: k = rng.randrange(len(pts)); pts[k] = b'Subj:' + pts[k]
+    elif dev == 'point-renamed-suffix' and pts: k = rng.randrange(len(pts)); pts[k] = pts[k] + b':1'
     elif dev == 'chan-extra-1sub': chans.append(b'zz_c'); nsub = max(1, nsub)
     elif dev == 'chan-missing-1sub' and chans: chans.pop(); nsub = max(1, nsub)
     return rand_lit(rng, pts, chans, nsub)
